@@ -180,8 +180,11 @@ func (a *App) indexFile(ctx context.Context, upload *db.Upload, p io.Reader, met
 		start := time.Now()
 		if err != nil {
 			fw.CloseWithError(err)
-		} else {
-			err = fw.Close()
+		} else if err = fw.Close(); err != nil {
+			// A failed Close may leave the file, or part of
+			// it, in storage. Cancel the write so that the
+			// file is removed like on every other error.
+			fw.CloseWithError(err)
 		}
 		infof(ctx, "Close(%q) took %.2f seconds", path, time.Since(start).Seconds())
 	}()
